@@ -18,8 +18,8 @@ import time
 
 VERIF = os.path.dirname(os.path.dirname(os.path.abspath(__file__)))
 REPO = os.environ.get("VERIF_REPO", "/repo")
-TARGET = os.path.join(VERIF, "build", "kani")
-GEN = os.path.join(VERIF, "build", "gen")
+TARGET = os.environ.get("VERIF_KANI_TARGET") or os.path.join(VERIF, "build", "kani")
+GEN = os.path.join(VERIF, "build", "gen")  # included by absolute path from the harness modules
 CMD_DESCR = ("CARGO_NET_OFFLINE=true cargo kani -p <crate> -Z function-contracts -Z stubbing --harness <h>... "
              "(cwd=/repo, --target-dir /verif/build/kani/<crate>)")
 PKG = {"rustemo": "rustemo", "compiler": "rustemo-compiler"}
